@@ -30,7 +30,7 @@ m = dict(
     engines=[dict(name="lvc", path="/verif/lvc", serves_properties=[c["property_id"] for c in checks],
                   kind_free_text="contract-based deductive verifier: jaxpr extraction of the real functions, VC generation over lazily indexed symbolic arrays and uninterpreted collaborators, z3/cvc5 discharge, native replay of counter-models")],
     checks=checks,
-    notes="See DESIGN.md. Exit codes: 0 held, 1 violation (VIOLATION line), 2 undecided, 3 internal error.",
+    notes="See DESIGN.md. Exit codes: 0 held, 1 violation (VIOLATION line), 2 undecided, 3 internal error. Known findings (genuine defects recorded, not repaired) and fixed ones are listed in known_findings.json (committed, never written at run time); a listed known finding prints a KNOWN-FINDING line and does not change the exit code.",
     not_applicable=na,
 )
 json.dump(m, open(os.path.join(ROOT, "MANIFEST.json"), "w"), indent=1)
